@@ -354,6 +354,10 @@ def c10(tier):
         corpus += [r.choice(["ab", "a-", "--", "|", "x1 -", "+", "o-", "Hello"]),
                    r.choice(["\n".join(cat[r.randrange(22)]), gen.box(r.randint(1, 4), r.randint(1, 3), "round"),
                              " .-\n(\n `-", "  /\n /\n+", ".-.\n| |\n'-'"])]
+    # every third pair also in the other order (what is decided about the first part must not decide the second)
+    if len(corpus) % 2:
+        corpus.append("ab")
+    corpus += [x for i in range(0, len(corpus) - 1, 6) for x in (corpus[i + 1], corpus[i])]
     for i in range(0, len(corpus) - 1, 2):
         a, b = corpus[i], corpus[i + 1]
         # vertical placement: both at the top (half of the pairs), or one of them lowered: by a few rows, so that
@@ -2542,6 +2546,11 @@ def c19(tier):
     # pre-compute nothing: the library conversion is memoised on demand (thread-safe enough: idempotent)
     with ThreadPoolExecutor(max_workers=common.NCPU) as ex:
         for sc, text, ob, info in ex.map(one, jobs):
+            if ob["exit"] != sc["exit"]:
+                # the model names the tool's present exit codes (1 / 101 / 2); another non-zero code is drift, not a verdict
+                run.drift += 1
+                if len(run.drift_samples) < 5:
+                    run.drift_samples.append({"scenario": sc, "exit": ob["exit"]})
             run.add_event({"props": ["C19"], "sc": {"opts": sc["opts"], "inmode": sc["inmode"], "fault": sc["fault"]}, "ob": ob},
                           {"input": text, "scenario": sc, "cli": info})
     run.replayed = len(jobs)
@@ -2723,6 +2732,43 @@ def c20(tier):
         events += lookalikes(0)
         with ThreadPoolExecutor(max_workers=4) as ex:
             for evs in ex.map(lookalikes, range(1, 5)):
+                events += evs
+        # several requests over one connection (keep-alive): answers must not depend on what the connection carried before;
+        # a connection the server has closed is re-opened and the request sent again (closing is the server's right)
+        import http.client as _hc
+
+        def keepalive(cid):
+            rr = common.rng("C20/keep/%d" % cid)
+            out = []
+            conn = _hc.HTTPConnection("127.0.0.1", srv.port, timeout=30)
+            for k in range(12 if tier == "quick" else 80):
+                kind = rr.choice(["get", "post_ok", "post_ok", "post_badutf8", "other_path"])
+                want = ""
+                if kind == "get":
+                    meth, pth, body, want = "GET", "/", None, hello_sha
+                elif kind == "post_ok":
+                    t, want = rr.choice(pool + lpool)
+                    meth, pth, body = "POST", "/", t.encode("utf-8")
+                elif kind == "post_badutf8":
+                    meth, pth, body = "POST", "/", b"+--+\xff"
+                else:
+                    meth, pth, body = "GET", "/nowhere", None
+                st, data = 0, b""
+                for attempt in range(2):
+                    try:
+                        conn.request(meth, pth, body=body, headers={"Content-Type": "text/plain"} if body is not None else {})
+                        rs = conn.getresponse()
+                        data = rs.read()
+                        st = rs.status
+                        break
+                    except (OSError, _hc.HTTPException):
+                        conn.close()
+                        conn = _hc.HTTPConnection("127.0.0.1", srv.port, timeout=30)
+                out.append({"client": cid, "seq": 4000 + k, "class": kind, "status": st, "body_sha": shells.sha(data), "want_sha": want})
+            conn.close()
+            return out
+        with ThreadPoolExecutor(max_workers=4) as ex:
+            for evs in ex.map(keepalive, range(1, 5)):
                 events += evs
         # uploads that stall: many connections send the head of a POST and a few bytes of the body and then nothing; while
         # they are held open, other clients' requests must be answered as always
